@@ -32,6 +32,8 @@ type Harness struct {
 	endLn    int
 	Requires []string
 	Vacuity  bool
+	Summary  bool
+	Insts    []*ssa.Function
 }
 
 type Program struct {
@@ -48,6 +50,15 @@ type Program struct {
 	LoopSpecs map[string]*Item // "pkgpath.Func" / "pkgpath.(Recv).Method" -> item with loop specs
 	Warnings  []string
 	Injected  map[string][]byte
+	Summaries map[string]*FuncSummary
+}
+
+// FuncSummary: predicate forms of a function contract (requires, ensures) at
+// the instantiations listed by its `inst` lines.
+type FuncSummary struct {
+	Item  *Item
+	Req   []*ssa.Function
+	Preds [][]*ssa.Function
 }
 
 type srcDecl struct {
@@ -411,6 +422,72 @@ func (g *ghostGen) generate() (string, []*Harness) {
 				drv = append(drv, h.GhostFn+driverArgs(tps, it.Inst))
 				g.harn = append(g.harn, h)
 			}
+			if it.Kind == "func" && it.Options["summary"] != "" {
+				// predicate forms of the contract, used as a summary of the function at call sites
+				resNames := append([]string(nil), it.Results...)
+				if len(resNames) == 0 {
+					resNames = []string{"result"}
+				}
+				resDecl := ""
+				if sd := g.src.funcs[funcKey(it)]; sd != nil && sd.decl.Type.Results != nil {
+					k := 0
+					for _, f := range sd.decl.Type.Results.List {
+						cnt := len(f.Names)
+						if cnt == 0 {
+							cnt = 1
+						}
+						for j := 0; j < cnt; j++ {
+							nm := "result"
+							if k < len(resNames) {
+								nm = resNames[k]
+							} else if k > 0 {
+								nm = fmt.Sprintf("result%d", k+1)
+							}
+							resDecl += ", " + nm + " " + types.ExprString(f.Type)
+							k++
+						}
+					}
+				}
+				insts := append([]string{it.Inst}, it.MoreInst...)
+				emitPred := func(name, expr string) {
+					h := &Harness{Item: it, Clause: -2, GhostFn: name, Summary: true}
+					var fb strings.Builder
+					fmt.Fprintf(&fb, "func %s%s(%s%s) bool {\n\treturn %s\n}\n\n", name, tparamsDecl(tps), paramDecl, resDecl, expr)
+					h.startLn = strings.Count(body.String(), "\n")
+					body.WriteString(fb.String())
+					h.endLn = strings.Count(body.String(), "\n")
+					for _, in := range insts {
+						drv = append(drv, name+driverArgs(tps, in))
+					}
+					g.harn = append(g.harn, h)
+				}
+				reqExpr := "true"
+				if len(reqs) > 0 {
+					reqExpr = "(" + strings.Join(reqs, ") && (") + ")"
+				}
+				// requires does not mention the result: separate parameter list
+				{
+					name := base + "_req"
+					h := &Harness{Item: it, Clause: -2, GhostFn: name, Summary: true}
+					var fb strings.Builder
+					fmt.Fprintf(&fb, "func %s%s(%s) bool {\n\treturn %s\n}\n\n", name, tparamsDecl(tps), paramDecl, reqExpr)
+					h.startLn = strings.Count(body.String(), "\n")
+					body.WriteString(fb.String())
+					h.endLn = strings.Count(body.String(), "\n")
+					for _, in := range insts {
+						drv = append(drv, name+driverArgs(tps, in))
+					}
+					g.harn = append(g.harn, h)
+				}
+				pi := 0
+				for _, c := range it.Clauses {
+					if c.Kind != "ensures" || strings.Contains(c.Expr, "Calls(") || strings.Contains(c.Expr, "NoCalls(") || strings.Contains(c.Expr, "Fresh(") || strings.Contains(c.Expr, "Unchanged(") {
+						continue
+					}
+					emitPred(fmt.Sprintf("%s_p%d", base, pi), desugar(c.Expr))
+					pi++
+				}
+			}
 			if len(reqs) > 0 && ei > 0 {
 				// reachability check behind the preconditions: must be refuted
 				h := &Harness{Item: it, Clause: -1, GhostFn: base + "_vac", Requires: reqs, Vacuity: true, Oblig: itemDisplayName(it) + "/vacuity:requires-satisfiable"}
@@ -505,6 +582,13 @@ func (g *ghostGen) generate() (string, []*Harness) {
 		h.endLn += off + 1
 	}
 	return hd.String() + bs, g.harn
+}
+
+func funcKey(it *Item) string {
+	if it.Recv != "" {
+		return it.Recv + "." + it.Name
+	}
+	return it.Name
 }
 
 func usesPkgIdent(src, name string) bool {
@@ -788,15 +872,45 @@ func LoadProgram(repo string, props map[string]bool) (*Program, error) {
 					name = o.Name()
 				}
 				if h := byName[path+"."+name]; h != nil {
-					h.Fn = fn
+					if h.Summary {
+						h.Insts = append(h.Insts, fn)
+					} else {
+						h.Fn = fn
+					}
 				}
 			}
 		}
 	}
-	for _, it := range p.Items {
-		if len(it.Loops) > 0 {
-			p.LoopSpecs[itemDisplayName(it)] = it
+	p.Summaries = map[string]*FuncSummary{}
+	for _, h := range p.Harnesses {
+		if !h.Summary {
+			continue
+		}
+		pk := modPath
+		if h.Item.PkgDir != "" {
+			pk += "/" + h.Item.PkgDir
+		}
+		key := pk + "." + h.Item.Name
+		if h.Item.Recv != "" {
+			key = pk + "." + h.Item.Recv + "." + h.Item.Name
+		}
+		fs := p.Summaries[key]
+		if fs == nil {
+			fs = &FuncSummary{Item: h.Item}
+			p.Summaries[key] = fs
+		}
+		if strings.HasSuffix(h.GhostFn, "_req") {
+			fs.Req = h.Insts
+		} else {
+			fs.Preds = append(fs.Preds, h.Insts)
 		}
 	}
+	var hs []*Harness
+	for _, h := range p.Harnesses {
+		if !h.Summary {
+			hs = append(hs, h)
+		}
+	}
+	p.Harnesses = hs
 	return p, nil
 }
